@@ -44,3 +44,20 @@ contract('saml2_tophat.time_util:later_than', types={'after': 'Opt(Str)', 'befor
          raises={'ValueError': 'True', 'AttributeError': 'True', 'TypeError': '(truthy(after) and not parsable(after)) or (truthy(before) and not parsable(before))'
                               ' or (after is not None and not truthy(after)) or (before is not None and not truthy(before))'},
          modifies=[])
+
+# before(point): "now <= point";  after(point): "now > point";  a falsy point counts as both (no limit)
+_PT = 'Union(Int, Str, NoneT)'
+contract('saml2_tophat.time_util:before', types={'point': _PT}, returns='Bool', pure=True,
+         lets={'P': 'ite(is_int(point), int_of(point), epoch(point))'},
+         ensures=[('no-point', 'implies(not truthy(point), result is True)'),
+                  ('C16/C19-not-yet-passed', 'implies(truthy(point) and result is True, NOW <= P)'),
+                  ('C16/C19-passed', 'implies(truthy(point) and result is False, NOW >= P)')],
+         raises={'ValueError': 'is_str(point) and not parsable(point)', 'AttributeError': 'is_str(point) and not parsable(point)'}, modifies=[],
+         clauses_from={'C16': ['C16/C19-not-yet-passed', 'C16/C19-passed'], 'C19': ['C16/C19-not-yet-passed', 'C16/C19-passed']})
+contract('saml2_tophat.time_util:after', types={'point': _PT}, returns='Bool', pure=True,
+         lets={'P': 'ite(is_int(point), int_of(point), epoch(point))'},
+         ensures=[('no-point', 'implies(not truthy(point), result is True)'),
+                  ('C19-passed', 'implies(truthy(point) and result is True, NOW >= P)'),
+                  ('C19-not-yet-passed', 'implies(truthy(point) and result is False, NOW <= P)')],
+         raises={'ValueError': 'True', 'AttributeError': 'True', 'TypeError': 'True'}, modifies=[],
+         clauses_from={'C19': ['C19-passed', 'C19-not-yet-passed']})
